@@ -314,8 +314,14 @@ func (r *replica) step(crashAt int) bool {
 		must(r.peer.ProposeConfigChange(req.cc, req.key))
 		hasEvent = true
 	}
-	// handleProposals
-	if len(r.pendingProps) > 0 {
+	// handleProposals (node.go: not while the replica is rate limited)
+	if len(r.pendingProps) > 0 && r.cfg.MaxInMemLogSize > 0 && r.peer.RateLimited() {
+		r.sim.mon.count("steps_with_proposals_held_back_by_the_rate_limit", 1)
+		if len(r.pendingProps) > 64 {
+			// the incoming queue is bounded: the oldest requests would have been refused (ErrSystemBusy)
+			r.pendingProps = r.pendingProps[len(r.pendingProps)-64:]
+		}
+	} else if len(r.pendingProps) > 0 {
 		ents := r.pendingProps
 		r.pendingProps = nil
 		must(r.peer.ProposeEntries(ents))
